@@ -5,6 +5,7 @@ CONSTANTS
   MaxBlocks = 2
   Layouts = {"plain", "fee_after", "fee_after_change", "fee_before", "fee_between", "extra_out", "two_fees"}
   MaxUnwind = 0
+  Features = {}
   Defect = "none"
   MaxReload = 0
 CONSTRAINT Bounded
